@@ -17,6 +17,8 @@ def run(rep):
     rep.guard(d2, rep, w)
     rep.guard(d3, rep, w)
     rep.guard(d4, rep, w)
+    import c11
+    rep.guard(c11.i4, rep, w)    # the text of a number is an interned string: a look-up that takes equal hash for equal text hands `String.from(b)` the text of another number
 
 
 def arm_blocks(f, variant):
